@@ -47,3 +47,102 @@ def run_family(vlib, family, work, r=None, fresh=False, timeout=900):
     if r is not None:
         r.add_tlc(res)
     return dedup([to_case(c, "F" + family[:2], fresh=fresh, tag="fam:" + family) for c in res["cases"]])
+
+
+# --------------------------------------------------------------------------- module mode
+
+def split_forms(src):
+    """top-level forms of a unit (text): parentheses / brackets matched, strings and char literals skipped"""
+    forms, depth, start, i, n = [], 0, None, 0, len(src)
+    while i < n:
+        ch = src[i]
+        if ch == '"':
+            if depth == 0 and start is None:
+                start = i
+            i += 1
+            while i < n and src[i] != '"':
+                i += 2 if src[i] == "\\" else 1
+            if depth == 0:
+                forms.append(src[start:i + 1]); start = None
+        elif ch == "#" and i + 1 < n and src[i + 1] == "\\":
+            if depth == 0 and start is None:
+                start = i
+            i += 2
+            while i + 1 < n and not src[i + 1].isspace() and src[i + 1] not in "()[]":
+                i += 1
+            if depth == 0:
+                forms.append(src[start:i + 1]); start = None
+        elif ch in "([":
+            if depth == 0 and start is None:
+                start = i
+            depth += 1
+        elif ch in ")]":
+            depth -= 1
+            if depth == 0:
+                forms.append(src[start:i + 1]); start = None
+        elif ch.isspace():
+            if depth == 0 and start is not None:
+                forms.append(src[start:i]); start = None
+        else:
+            if depth == 0 and start is None:
+                start = i
+        i += 1
+    if start is not None:
+        forms.append(src[start:])
+    return forms
+
+
+def observable(case):
+    """The same program with the value of every unit observed through `emit` (inside a module the value
+    of a top-level expression is not returned to the host).  None when a unit ends in something that
+    cannot be wrapped."""
+    steps = []
+    for st in case["steps"]:
+        st = dict(st)
+        if st.get("class", "ok") == "ok" and "val" in st:
+            forms = split_forms(st["src"])
+            if forms and not forms[-1].startswith("(define") and "(define" not in forms[-1][:40] and st["val"] != "#<void>":
+                forms[-1] = "(emit " + forms[-1] + ")"
+                st["src"] = " ".join(forms)
+                st["emit"] = list(st.get("emit", [])) + [st["val"]]
+        st.pop("val", None)
+        steps.append(st)
+    return dict(case, steps=steps)
+
+
+DEFNAME = re.compile(r"^\(define \(?([^\s()]+)")
+
+
+def module_ok(case):
+    """M1: a module defines a name at most once (`Variable re defined within the top level definition`);
+    at the top level of an engine a later define shadows.  Programs that redefine are not module programs."""
+    seen = set()
+    for st in case["steps"]:
+        for f in split_forms(st["src"]):
+            m = DEFNAME.match(f)
+            if m:
+                if m.group(1) in seen:
+                    return False
+                seen.add(m.group(1))
+    return True
+
+
+def replay_modules(vlib, cases, work, r, name, env=None, nontriv=None, err_every=1):
+    """module-mode replay of Lang cases (see vlib.module_variant): whole program = one module file"""
+    import os
+    root = os.path.join(work, "modules-" + name)
+    import shutil
+    shutil.rmtree(root, ignore_errors=True)
+    # only programs without an expected error: a module is compiled as a whole, so a statically detected
+    # error (arity, free identifier) legitimately rejects the file before any effect of it happens
+    obs = [observable(c) for c in cases if module_ok(c) and all(s.get("class", "ok") == "ok" for s in c["steps"])]
+    if env:
+        obs = [dict(c, id=c["id"] + "/" + "+".join(f"{k}={v}" for k, v in sorted(env.items())), env=env) for c in obs]
+    cs, vs = vlib.replay_as_modules(obs, work, root, env_extra=env, name=name)
+    r.add_cases(cs, vs, nontrivial=nontriv or (lambda c: any(s.get("emit") for s in c["steps"])))
+    return cs, vs
+
+
+def nontrivial_mod(case):
+    """module cases observe through emit only"""
+    return any(st.get("emit") for st in case["steps"])
